@@ -6,8 +6,8 @@ import cont
 
 MODEL_TARGETS = ["model/Container.vo", "spec/FileSpec.vo"]
 COQ_TARGETS = ["props/C15.vo"]
-THEOREMS = [("C15", ["C15_fail", "C15_built", "C15_inv", "C15_accounting", "C15_flush", "C15_nopanic", "C15_parses"])]
-PROOF_FILES = ["proofs/ContainerProofs.v", "proofs/VectoredWriteProofs.v", "props/C15.v"]
+THEOREMS = [("C15", ["C15_fail", "C15_built", "C15_inv", "C15_accounting", "C15_accounting_any_sink", "C15_flush", "C15_nopanic", "C15_parses"])]
+PROOF_FILES = ["proofs/ContainerProofs.v", "proofs/ContainerFinal.v", "proofs/SerContractProofs.v", "proofs/VectoredWriteProofs.v", "props/C15.v"]
 TRUSTED_BASE = [
     "Coq 8.16.1 kernel; no axioms (Print Assumptions: closed); no native_compute",
     "extraction (ExtrOcamlBasic only) + ocaml/driver.ml (parsing/printing); Rust harness avrodrive",
@@ -16,7 +16,7 @@ TRUSTED_BASE = [
 ]
 ASSUMPTIONS = [
     "compression libraries are outside the model: enc is an arbitrary function in the theorems; compressed snapshots are judged by reading them back with the crate's reader",
-    "C15_accounting and C15_nopanic take two contracts of ser as premises (ser only appends to a Vec; ser has no writer panic site); both are being proved for the real ser in proofs/SerContractProofs.v",
+    "the two contracts of ser used by the accounting and no-panic theorems (ser only appends; ser has no writer panic site) are proved for the real ser in proofs/SerContractProofs.v",
     "push_serialized(bytes, n) with n >= 2^63 or with n = 0 and non-empty bytes is a caller error outside the property (ContainerProofs.finish_leaves_uncounted_bytes, count_above_i64_not_in_grammar)"
 ]
 
